@@ -12,8 +12,8 @@
 (***************************************************************************)
 EXTENDS Composer
 
-VARIABLES upd, rec, deact, ao, nk, phase
-cvars == <<doc, len, hist, upd, rec, deact, ao, nk, phase>>
+VARIABLES upd, rec, deact, ao, nk, phase, updAlg, recAlg
+cvars == <<doc, len, hist, upd, rec, deact, ao, nk, phase, updAlg, recAlg>>
 
 NoKey == 0
 
@@ -48,45 +48,50 @@ Effective(w) == w # "late"
 
 AOs == {0, 1}
 
-Step(op, signer, nu, nr, a, w, req, refused) ==
-    [op |-> op, signer |-> signer, nu |-> nu, nr |-> nr, ao |-> a, win |-> w, req |-> req, refused |-> refused]
+\* alg: the hash algorithm the caller asks for in this step: the one the DID was created with, or the
+\* other configured one (a DID may migrate); ty: an entity type in the create request
+Algs2 == {"same", "other"}
+Step(op, signer, nu, nr, a, w, req, refused, alg, ty) ==
+    [op |-> op, signer |-> signer, nu |-> nu, nr |-> nr, ao |-> a, win |-> w, req |-> req, refused |-> refused,
+     alg |-> alg, ty |-> ty]
 
 NoReq == [doc |-> EmptyDoc, upd |-> U(<<>>, <<>>, <<>>, <<>>, <<>>, <<>>)]
 
 -----------------------------------------------------------------------------
 CInit == /\ doc = EmptyDoc /\ len = 0 /\ hist = <<>>
          /\ upd = NoKey /\ rec = NoKey /\ deact = FALSE /\ ao = 0 /\ nk = 0 /\ phase = "start"
+         /\ updAlg = "same" /\ recAlg = "same"
 
-Create(d, a) ==
+Create(d, a, ty) ==
     /\ phase = "start" /\ len < MaxLen
     /\ doc' = d /\ upd' = nk + 1 /\ rec' = nk + 2 /\ nk' = nk + 2 /\ ao' = a /\ deact' = FALSE
-    /\ phase' = "created"
-    /\ hist' = Append(hist, Step("create", NoKey, nk + 1, nk + 2, a, "none", [NoReq EXCEPT !.doc = d], ""))
+    /\ phase' = "created" /\ updAlg' = "same" /\ recAlg' = "same"
+    /\ hist' = Append(hist, Step("create", NoKey, nk + 1, nk + 2, a, "none", [NoReq EXCEPT !.doc = d], "", "same", ty))
     /\ len' = len + 1
 
-Update(u, w) ==
+Update(u, w, alg) ==
     /\ phase \in {"created", "recovered"} /\ len < MaxLen
     /\ doc' = IF Effective(w) THEN ApplyUpdate(doc, u) ELSE doc
-    /\ upd' = nk + 1 /\ nk' = nk + 1
-    /\ hist' = Append(hist, Step("update", upd, nk + 1, NoKey, 0, w, [NoReq EXCEPT !.upd = u], ""))
+    /\ upd' = nk + 1 /\ nk' = nk + 1 /\ updAlg' = alg
+    /\ hist' = Append(hist, Step("update", upd, nk + 1, NoKey, 0, w, [NoReq EXCEPT !.upd = u], "", alg, 0))
     /\ len' = len + 1
-    /\ UNCHANGED <<rec, deact, ao, phase>>
+    /\ UNCHANGED <<rec, deact, ao, phase, recAlg>>
 
-Recover(d, a, w) ==
+Recover(d, a, w, alg) ==
     /\ phase = "created" /\ len < MaxLen
     /\ doc' = IF Effective(w) THEN d ELSE EmptyDoc
     /\ upd' = nk + 1 /\ rec' = nk + 2 /\ nk' = nk + 2 /\ ao' = a
-    /\ phase' = "recovered"
-    /\ hist' = Append(hist, Step("recover", rec, nk + 1, nk + 2, a, w, [NoReq EXCEPT !.doc = d], ""))
+    /\ phase' = "recovered" /\ updAlg' = alg /\ recAlg' = alg
+    /\ hist' = Append(hist, Step("recover", rec, nk + 1, nk + 2, a, w, [NoReq EXCEPT !.doc = d], "", alg, 0))
     /\ len' = len + 1
     /\ UNCHANGED deact
 
 Deactivate ==
     /\ phase \in {"created", "recovered"} /\ len < MaxLen
     /\ doc' = EmptyDoc /\ upd' = NoKey /\ rec' = NoKey /\ deact' = TRUE /\ phase' = "done"
-    /\ hist' = Append(hist, Step("deactivate", rec, NoKey, NoKey, 0, "none", NoReq, ""))
+    /\ hist' = Append(hist, Step("deactivate", rec, NoKey, NoKey, 0, "none", NoReq, "", "same", 0))
     /\ len' = len + 1
-    /\ UNCHANGED <<ao, nk>>
+    /\ UNCHANGED <<ao, nk, updAlg, recAlg>>
 
 \* inputs the builders must refuse; the state stays as it is
 Refusals == {<<"create", "equal_commitments">>, <<"create", "wrong_algorithm">>,
@@ -97,14 +102,14 @@ Refuse(r) ==
     /\ (r[1] = "create" /\ phase = "start") \/ (r[1] # "create" /\ phase \in {"created", "recovered"})
     /\ hist' = Append(hist, Step(r[1], IF r[1] = "update" THEN upd ELSE rec, nk + 1, nk + 2, 0, "none",
                                  [NoReq EXCEPT !.doc = [EmptyDoc EXCEPT !.keys = <<K(1, 1)>>],
-                                               !.upd = U(<<K(3, 1)>>, <<>>, <<>>, <<>>, <<>>, <<>>)], r[2]))
+                                               !.upd = U(<<K(3, 1)>>, <<>>, <<>>, <<>>, <<>>, <<>>)], r[2], "same", 0))
     /\ len' = len + 1
-    /\ UNCHANGED <<doc, upd, rec, deact, ao, nk, phase>>
+    /\ UNCHANGED <<doc, upd, rec, deact, ao, nk, phase, updAlg, recAlg>>
 
 CNext ==
-    \/ \E d \in DocOpts, a \in AOs : Create(d, a)
-    \/ \E u \in UpdOpts, w \in Windows : Update(u, w)
-    \/ \E d \in DocOpts, a \in AOs, w \in Windows : Recover(d, a, w)
+    \/ \E d \in DocOpts, a \in AOs, ty \in {0, 1} : Create(d, a, ty)
+    \/ \E u \in UpdOpts, w \in Windows, alg \in Algs2 : (alg = "same" \/ w = "none") /\ Update(u, w, alg)
+    \/ \E d \in DocOpts, a \in AOs, w \in Windows, alg \in Algs2 : (alg = "same" \/ w = "none") /\ Recover(d, a, w, alg)
     \/ Deactivate
     \/ \E r \in Refusals : Refuse(r)
 
